@@ -5,8 +5,11 @@ A competing rule randomises, separately per group, over the group's tradeoff poi
 `_calculate_tradeoff_points` (and the flipped ones when `flip`): a `Mixture` (weights ≥ 0 summing to 1 over points
 of `rawPoints flip xm ym rows`).  By `C04.sweep_point_sound` and `metric_affine` the expected (x, y) metric pair of
 such a rule is (`Mixture.x`, `Mixture.y`).  All theorems hold for every dataset, any number of groups, every
-constraint / objective / flip / grid size N ≥ 1.  The arg-max is the exact one (`np.around(.,15)` and IEEE rounding
-of the implementation are outside the model; the harness accepts arg-max ties within 1e-12).
+constraint / objective / flip and ANY grid size `N : Nat` (`*_any_grid`; `N = 0` is the one-point grid `[0.]`, accepted by
+fairlearn; only `ge_constant` / `ge_constant_EO` need `1 ≤ N`, because the all-positive constant sits at x = 1).  The
+arg-max is the exact one (`np.around(.,15)` is the identity on the exact model: `Threshold.aroundModel_eq`; IEEE rounding
+of the implementation is outside the model; the harness accepts arg-max ties within 1e-12).  The fit the theorems talk
+about COMPUTES WITH the lifted `idxmax` / `np.amin` / `prediction_constant` / hull loop (`C04.lifted_*`).
 -/
 /-
 CLAUSE → THEOREM TABLE (review R1-B; property text in properties.jsonl, id C05)
@@ -29,8 +32,10 @@ CLAUSE → THEOREM TABLE (review R1-B; property text in properties.jsonl, id C05
 | "never worse than the best constant classifier"                            | ge_constant (simple; BOTH constants), ge_constant_EO (both)      |
 | arg-max tie rule (idxmax = first maximum)                                  | fitted_index_first_maximum_simple / _EO                          |
 Supporting: hull_supporting, supportsAll_true, mixture_le_line, interpolate_is_envelope, eo_objective_monotone.
-Hypotheses everywhere: 1 ≤ N, IsConstraintMetric xm (lifted table), a successful fit (⇔ BothLabels, C04.fit_simple_none_iff).
-NOT MODELLED: np.around(.,15) before the EO arg-max, IEEE rounding (trusted; the harness compares objective VALUES).
+Hypotheses everywhere: IsConstraintMetric xm (lifted table), a successful fit (⇔ BothLabels, C04.fit_simple_none_iff); `1 ≤ N`
+only in ge_constant / ge_constant_EO (every other theorem has an `_any_grid` form for N : Nat; the forms with `1 ≤ N` are kept as corollaries).
+NOT MODELLED: np.around(.,15) before the EO arg-max (identity on the exact model, Threshold.aroundModel_eq), IEEE rounding (trusted;
+the harness compares objective VALUES).
 -/
 import FairModel.Lemmas.ThresholdOpt
 import FairModel.Lemmas.ThresholdComplete
@@ -92,25 +97,33 @@ theorem mixture_le_line (a b : Pt) (pts : List Pt) (m : Mixture) (g ry : Rat)
 
 /-- the interpolated curve is the concave envelope on the grid: no mixture of the group's threshold rules with
     constraint value `i/N` has a larger objective than the interpolated rule, and the interpolated rule attains it -/
-theorem interpolate_is_envelope (flip : Bool) (xm ym : Metric) (rows : List Row) (hx : IsConstraintMetric xm)
-    (hp : nPos rows ≠ 0) (hn : nNeg rows ≠ 0) (N i : Nat) (hN : 1 ≤ N) (hi : i ≤ N) :
+theorem interpolate_is_envelope_any_grid (flip : Bool) (xm ym : Metric) (rows : List Row) (hx : IsConstraintMetric xm)
+    (hp : nPos rows ≠ 0) (hn : nNeg rows ≠ 0) (N i : Nat) (hi : i ≤ N) :
     ∃ H r, tradeoffCurve flip xm ym rows = some H ∧ interpolateAt H i (gridVal N i) = some r ∧
       expectedMetric xm (simpleRule r) rows = gridVal N i ∧ expectedMetric ym (simpleRule r) rows = r.y ∧
       ∀ m : Mixture, m.Valid (rawPoints flip xm ym rows) → m.x = gridVal N i → m.y ≤ r.y := by
   obtain ⟨H, gc⟩ := groupCurve_exists flip xm ym rows hx hp hn
-  obtain ⟨r, hr, hs⟩ := group_interpolate gc hN hi
+  obtain ⟨r, hr, hs⟩ := group_interpolate_any gc hi
   obtain ⟨e1, e2⟩ := expected_simple gc hs
   exact ⟨H, r, gc.eq, hr, e1, e2, fun m hv hmx => interp_dominates gc hs m hv hmx⟩
 
+/-- `interpolate_is_envelope_any_grid` for `N ≥ 1` (the older statement; the hypothesis `1 ≤ N` is not used) -/
+theorem interpolate_is_envelope (flip : Bool) (xm ym : Metric) (rows : List Row) (hx : IsConstraintMetric xm)
+    (hp : nPos rows ≠ 0) (hn : nNeg rows ≠ 0) (N i : Nat) (hN : 1 ≤ N) (hi : i ≤ N) :
+    ∃ H r, tradeoffCurve flip xm ym rows = some H ∧ interpolateAt H i (gridVal N i) = some r ∧
+      expectedMetric xm (simpleRule r) rows = gridVal N i ∧ expectedMetric ym (simpleRule r) rows = r.y ∧
+      ∀ m : Mixture, m.Valid (rawPoints flip xm ym rows) → m.x = gridVal N i → m.y ≤ r.y :=
+  interpolate_is_envelope_any_grid flip xm ym rows hx hp hn N i hi
+
 /-- the reported objective is the frequency-weighted expected objective of the fitted rules -/
-theorem objective_attained_simple (flip : Bool) (xm ym : Metric) (N : Nat) (groups : List (List Row))
-    (force : Option Nat) (fit : Fit) (hN : 1 ≤ N) (hx : IsConstraintMetric xm)
+theorem objective_attained_simple_any_grid (flip : Bool) (xm ym : Metric) (N : Nat) (groups : List (List Row))
+    (force : Option Nat) (fit : Fit) (hx : IsConstraintMetric xm)
     (hfit : fitSimple flip xm ym N groups force = some fit) :
     fit.objective =
       (List.zipWith (fun g (r : Rule) => freq groups g * expectedMetric ym r g) groups fit.rules).sum := by
   obtain ⟨hulls, cs, best, hh, hc, hb, _, hrules, hobj, _⟩ := fitSimple_some hfit
   obtain ⟨hi, hbest⟩ := List.getElem?_eq_some_iff.mp hb
-  obtain ⟨hrow, hent⟩ := curves_entry hx hh hN hc fit.iBest hi
+  obtain ⟨hrow, hent⟩ := curves_entry_any hx hh hc fit.iBest hi
   have hlen := (hullsOf_some hh).1
   rw [hbest] at hrow hent
   rw [hobj, objSimple_eq, hrules]
@@ -120,11 +133,18 @@ theorem objective_attained_simple (flip : Bool) (xm ym : Metric) (N : Nat) (grou
   simp only [List.getElem_map]
   rw [(expected_simple gc hs).2]
 
+/-- `objective_attained_simple_any_grid` for `N ≥ 1` (the older statement; the hypothesis `1 ≤ N` is not used) -/
+theorem objective_attained_simple (flip : Bool) (xm ym : Metric) (N : Nat) (groups : List (List Row))
+    (force : Option Nat) (fit : Fit) (hN : 1 ≤ N) (hx : IsConstraintMetric xm)
+    (hfit : fitSimple flip xm ym N groups force = some fit) :
+    fit.objective =
+      (List.zipWith (fun g (r : Rule) => freq groups g * expectedMetric ym r g) groups fit.rules).sum :=
+  objective_attained_simple_any_grid flip xm ym N groups force fit hx hfit
+
 /-- (c) **optimal_simple**: among all families of per-group mixtures of the groups' (flip-allowed) threshold
     rules that give every group the same constraint value `i/N` for some grid index `i ≤ N`, none has a larger
     frequency-weighted objective than the fitted rule -/
-theorem optimal_simple (flip : Bool) (xm ym : Metric) (N : Nat) (groups : List (List Row)) (fit : Fit)
-    (hN : 1 ≤ N) (hx : IsConstraintMetric xm)
+theorem optimal_simple_any_grid (flip : Bool) (xm ym : Metric) (N : Nat) (groups : List (List Row)) (fit : Fit) (hx : IsConstraintMetric xm)
     (hfit : fitSimple flip xm ym N groups none = some fit)
     (i : Nat) (hi : i ≤ N) (ms : List Mixture) (hlen : ms.length = groups.length)
     (hms : ∀ j (hj : j < groups.length) (hj' : j < ms.length),
@@ -135,7 +155,7 @@ theorem optimal_simple (flip : Bool) (xm ym : Metric) (N : Nat) (groups : List (
   have hlenh := (hullsOf_some hh).1
   -- row i dominates the family
   have hi' : i < cs.length := by omega
-  obtain ⟨hrow, hent⟩ := curves_entry hx hh hN hc i hi'
+  obtain ⟨hrow, hent⟩ := curves_entry_any hx hh hc i hi'
   have h1 : mixObjective groups ms ≤ objSimple groups cs[i] := by
     rw [objSimple_eq]
     unfold mixObjective
@@ -155,6 +175,16 @@ theorem optimal_simple (flip : Bool) (xm ym : Metric) (N : Nat) (groups : List (
   have h2 : objSimple groups cs[i] ≤ m := hmax _ (List.mem_map.mpr ⟨cs[i], List.getElem_mem hi', rfl⟩)
   rw [hobj, hm]
   exact le_trans h1 h2
+
+/-- `optimal_simple_any_grid` for `N ≥ 1` (the older statement; the hypothesis `1 ≤ N` is not used) -/
+theorem optimal_simple (flip : Bool) (xm ym : Metric) (N : Nat) (groups : List (List Row)) (fit : Fit)
+    (hN : 1 ≤ N) (hx : IsConstraintMetric xm)
+    (hfit : fitSimple flip xm ym N groups none = some fit)
+    (i : Nat) (hi : i ≤ N) (ms : List Mixture) (hlen : ms.length = groups.length)
+    (hms : ∀ j (hj : j < groups.length) (hj' : j < ms.length),
+      ms[j].Valid (rawPoints flip xm ym groups[j]) ∧ ms[j].x = gridVal N i) :
+    mixObjective groups ms ≤ fit.objective :=
+  optimal_simple_any_grid flip xm ym N groups fit hx hfit i hi ms hlen hms
 
 /-- the reported objective is the `len(group) / n`-weighted sum of the `y` of every group's interpolated curve at `x_best`;
     by `C04.fit_predict_consistent_simple` that `y` is the group's expected objective metric computed from `_pmf_predict`
@@ -313,8 +343,8 @@ theorem eo_objective_monotone (obj : Metric) (hobj : obj ∈ objectivesEO) (grou
 /-- (e) **optimal_EO**: if every group can realise the same ROC point `(i/N, y)` by some mixture of its threshold
     rules, then `y` is at most the pointwise-lowest hull at `i/N`, and the overall objective of `(i/N, y)` is at
     most the objective of the fitted rule, which sits at `(iBest/N, yBest)` (see `C04.parity_EO`) -/
-theorem optimal_EO (flip : Bool) (obj : Metric) (hobj : obj ∈ objectivesEO) (N : Nat) (groups : List (List Row))
-    (fit : Fit) (yBest : Rat) (hN : 1 ≤ N)
+theorem optimal_EO_any_grid (flip : Bool) (obj : Metric) (hobj : obj ∈ objectivesEO) (N : Nat) (groups : List (List Row))
+    (fit : Fit) (yBest : Rat)
     (hfit : fitEO flip obj N groups none = some (fit, yBest))
     (i : Nat) (hi : i ≤ N) (y : Rat)
     (hms : ∀ j (hj : j < groups.length), ∃ m : Mixture,
@@ -327,7 +357,7 @@ theorem optimal_EO (flip : Bool) (obj : Metric) (hobj : obj ∈ objectivesEO) (N
   have hlenh := (hullsOf_some hh).1
   obtain ⟨hylen, hyget⟩ := allSome_map_get hy
   have hi' : i < cs.length := by omega
-  obtain ⟨hrow, hent⟩ := curves_entry hx hh hN hc i hi'
+  obtain ⟨hrow, hent⟩ := curves_entry_any hx hh hc i hi'
   -- y is below every group's interpolated TPR, hence below their minimum
   have hymin : minList (cs[i].map (·.y)) = some (ymins[i]'(by omega)) := hyget i hi' (by omega)
   obtain ⟨hmem, _⟩ := minList_spec _ _ hymin
@@ -362,20 +392,38 @@ theorem optimal_EO (flip : Bool) (obj : Metric) (hobj : obj ∈ objectivesEO) (N
   rw [hobjv, hm]
   exact le_trans h1 h2
 
+/-- `optimal_EO_any_grid` for `N ≥ 1` (the older statement; the hypothesis `1 ≤ N` is not used) -/
+theorem optimal_EO (flip : Bool) (obj : Metric) (hobj : obj ∈ objectivesEO) (N : Nat) (groups : List (List Row))
+    (fit : Fit) (yBest : Rat) (hN : 1 ≤ N)
+    (hfit : fitEO flip obj N groups none = some (fit, yBest))
+    (i : Nat) (hi : i ≤ N) (y : Rat)
+    (hms : ∀ j (hj : j < groups.length), ∃ m : Mixture,
+      m.Valid (rawPoints flip eoXMetric eoYMetric groups[j]) ∧ m.x = gridVal N i ∧ m.y = y) :
+    fit.objective = objEO obj groups (gridVal N fit.iBest) yBest ∧
+    objEO obj groups (gridVal N i) y ≤ fit.objective :=
+  optimal_EO_any_grid flip obj hobj N groups fit yBest hfit i hi y hms
+
 /-- the objective reported for equalized odds IS the objective metric of the overall expected confusion counts of
     the fitted randomised rule on the whole training set (sum over groups of each group's rule on its own rows) -/
-theorem objective_attained_EO (flip : Bool) (obj : Metric) (N : Nat) (groups : List (List Row))
-    (force : Option Nat) (fit : Fit) (yBest : Rat) (hN : 1 ≤ N)
+theorem objective_attained_EO_any_grid (flip : Bool) (obj : Metric) (N : Nat) (groups : List (List Row))
+    (force : Option Nat) (fit : Fit) (yBest : Rat)
     (hfit : fitEO flip obj N groups force = some (fit, yBest)) :
     fit.objective = obj.eval (overallCM groups fit.rules) := by
-  obtain ⟨hb, _, hlen, hpar⟩ := C04.parity_EO flip obj N groups force fit yBest hN hfit
+  obtain ⟨hb, _, hlen, hpar⟩ := C04.parity_EO_any_grid flip obj N groups force fit yBest hfit
   obtain ⟨_, _, _, _, _, _, _, _, _, _, _, hobjv, _⟩ := fitEO_some hfit
   rw [hobjv]
-  unfold objEO
+  rw [objEO_eq]
   rw [overallCM_eq (gridVal N fit.iBest) yBest groups fit.rules hlen]
   intro j hj hj'
   have hg := hb groups[j] (List.getElem_mem hj)
   exact ⟨hg.1, hg.2, (hpar j hj hj').1, (hpar j hj hj').2.1⟩
+
+/-- `objective_attained_EO_any_grid` for `N ≥ 1` (the older statement; the hypothesis `1 ≤ N` is not used) -/
+theorem objective_attained_EO (flip : Bool) (obj : Metric) (N : Nat) (groups : List (List Row))
+    (force : Option Nat) (fit : Fit) (yBest : Rat) (hN : 1 ≤ N)
+    (hfit : fitEO flip obj N groups force = some (fit, yBest)) :
+    fit.objective = obj.eval (overallCM groups fit.rules) :=
+  objective_attained_EO_any_grid flip obj N groups force fit yBest hfit
 
 
 /-! ### The comparison class FROM FIRST PRINCIPLES (review addition)
@@ -401,8 +449,7 @@ def opsObjective (ym : Metric) (groups : List (List Row)) (ms : List OpMix) : Ra
     of arbitrary `>`-thresholdings, and `<`-thresholdings when `flip`) whose expected constrained metric, computed on each
     group's own rows, is the same grid value `i/N` in every group.  Its group-frequency-weighted expected objective is at
     most the objective of the fitted rule (which by `objective_attained_simple` is the same functional of the fitted rules). -/
-theorem optimal_simple_ops (flip : Bool) (xm ym : Metric) (N : Nat) (groups : List (List Row)) (fit : Fit)
-    (hN : 1 ≤ N) (hx : IsConstraintMetric xm)
+theorem optimal_simple_ops_any_grid (flip : Bool) (xm ym : Metric) (N : Nat) (groups : List (List Row)) (fit : Fit) (hx : IsConstraintMetric xm)
     (hfit : fitSimple flip xm ym N groups none = some fit)
     (i : Nat) (hi : i ≤ N) (ms : List OpMix) (hlen : ms.length = groups.length)
     (hms : ∀ j (hj : j < groups.length) (hj' : j < ms.length),
@@ -412,7 +459,7 @@ theorem optimal_simple_ops (flip : Bool) (xm ym : Metric) (N : Nat) (groups : Li
   have hclen := (curves_some hc).1
   have hlenh := (hullsOf_some hh).1
   have hi' : i < cs.length := by omega
-  obtain ⟨hrow, hent⟩ := curves_entry hx hh hN hc i hi'
+  obtain ⟨hrow, hent⟩ := curves_entry_any hx hh hc i hi'
   refine le_trans ?_ (hmax i hi')
   rw [objSimple_eq]
   unfold opsObjective
@@ -425,20 +472,30 @@ theorem optimal_simple_ops (flip : Bool) (xm ym : Metric) (N : Nat) (groups : Li
   rw [hMy] at this
   exact mul_le_mul_of_nonneg_left this (freq_nonneg _ _)
 
+/-- `optimal_simple_ops_any_grid` for `N ≥ 1` (the older statement; the hypothesis `1 ≤ N` is not used) -/
+theorem optimal_simple_ops (flip : Bool) (xm ym : Metric) (N : Nat) (groups : List (List Row)) (fit : Fit)
+    (hN : 1 ≤ N) (hx : IsConstraintMetric xm)
+    (hfit : fitSimple flip xm ym N groups none = some fit)
+    (i : Nat) (hi : i ≤ N) (ms : List OpMix) (hlen : ms.length = groups.length)
+    (hms : ∀ j (hj : j < groups.length) (hj' : j < ms.length),
+      ms[j].Valid flip ∧ xm.eval (expCM ms[j].prob groups[j]) = gridVal N i) :
+    opsObjective ym groups ms ≤ fit.objective :=
+  optimal_simple_ops_any_grid flip xm ym N groups fit hx hfit i hi ms hlen hms
+
 /-- **optimal_EO, full comparison class**: ANY family of per-group randomised threshold rules that gives every group the
     same expected FPR `i/N` (a grid value) and the same expected TPR `y`, both computed on the group's own rows, has an
     overall objective — the objective metric of the OVERALL expected confusion counts on the whole training set — at most
     the fitted rule's, which by `objective_attained_EO` is the same functional of the fitted rules -/
-theorem optimal_EO_ops (flip : Bool) (obj : Metric) (hobj : obj ∈ objectivesEO) (N : Nat) (groups : List (List Row))
-    (fit : Fit) (yBest : Rat) (hN : 1 ≤ N)
+theorem optimal_EO_ops_any_grid (flip : Bool) (obj : Metric) (hobj : obj ∈ objectivesEO) (N : Nat) (groups : List (List Row))
+    (fit : Fit) (yBest : Rat)
     (hfit : fitEO flip obj N groups none = some (fit, yBest))
     (i : Nat) (hi : i ≤ N) (y : Rat) (ms : List OpMix) (hlen : ms.length = groups.length)
     (hms : ∀ j (hj : j < groups.length) (hj' : j < ms.length),
       ms[j].Valid flip ∧ eoXMetric.eval (expCM ms[j].prob groups[j]) = gridVal N i ∧
       eoYMetric.eval (expCM ms[j].prob groups[j]) = y) :
     obj.eval (overallCMp groups (ms.map OpMix.prob)) ≤ obj.eval (overallCM groups fit.rules) := by
-  obtain ⟨hb, _, _, _⟩ := C04.parity_EO flip obj N groups none fit yBest hN hfit
-  rw [← objective_attained_EO flip obj N groups none fit yBest hN hfit]
+  obtain ⟨hb, _, _, _⟩ := C04.parity_EO_any_grid flip obj N groups none fit yBest hfit
+  rw [← objective_attained_EO_any_grid flip obj N groups none fit yBest hfit]
   have hcm : overallCMp groups (ms.map OpMix.prob) = eoCounts (totalNeg groups) (totalPos groups) (gridVal N i) y := by
     apply overallCMp_eq (gridVal N i) y groups _ (by simpa using hlen)
     intro j hj hj'
@@ -446,13 +503,24 @@ theorem optimal_EO_ops (flip : Bool) (obj : Metric) (hobj : obj ∈ objectivesEO
     have hja : j < ms.length := by omega
     simp only [List.getElem_map]
     exact ⟨hg.1, hg.2, (hms j hj hja).2.1, (hms j hj hja).2.2⟩
-  rw [hcm]
-  refine (optimal_EO flip obj hobj N groups fit yBest hN hfit i hi y ?_).2
+  rw [hcm, ← objEO_eq]
+  refine (optimal_EO_any_grid flip obj hobj N groups fit yBest hfit i hi y ?_).2
   intro j hj
   have hja : j < ms.length := by omega
   obtain ⟨hv, h1, h2⟩ := hms j hj hja
   obtain ⟨M, hMv, hMx, hMy⟩ := opMix_to_mixture flip eoXMetric eoYMetric groups[j] ms[j] hv
   exact ⟨M, hMv, hMx.trans h1, hMy.trans h2⟩
+
+/-- `optimal_EO_ops_any_grid` for `N ≥ 1` (the older statement; the hypothesis `1 ≤ N` is not used) -/
+theorem optimal_EO_ops (flip : Bool) (obj : Metric) (hobj : obj ∈ objectivesEO) (N : Nat) (groups : List (List Row))
+    (fit : Fit) (yBest : Rat) (hN : 1 ≤ N)
+    (hfit : fitEO flip obj N groups none = some (fit, yBest))
+    (i : Nat) (hi : i ≤ N) (y : Rat) (ms : List OpMix) (hlen : ms.length = groups.length)
+    (hms : ∀ j (hj : j < groups.length) (hj' : j < ms.length),
+      ms[j].Valid flip ∧ eoXMetric.eval (expCM ms[j].prob groups[j]) = gridVal N i ∧
+      eoYMetric.eval (expCM ms[j].prob groups[j]) = y) :
+    obj.eval (overallCMp groups (ms.map OpMix.prob)) ≤ obj.eval (overallCM groups fit.rules) :=
+  optimal_EO_ops_any_grid flip obj hobj N groups fit yBest hfit i hi y ms hlen hms
 
 /-- **ge_constant for equalized odds**: the fitted rule's overall objective is at least that of the all-negative and of the
     all-positive constant classifier (overall objective of the whole training set predicted constantly 0 resp. 1) -/
@@ -507,18 +575,18 @@ theorem ruleOps_prob (r : Rule) : (ruleOps r).prob = ruleProb r := by
 /-- **attainment, simple constraints**: the fitted rules form a member of the comparison class of `optimal_simple_ops` —
     valid randomisations over (flip-allowed) thresholdings, common constraint value `iBest / N` computed from the rows — and
     the class objective of this member IS `fit.objective`.  With `optimal_simple_ops`: the fitted rule attains the maximum. -/
-theorem fitted_rule_attains_simple (flip : Bool) (xm ym : Metric) (N : Nat) (groups : List (List Row)) (force : Option Nat)
-    (fit : Fit) (hN : 1 ≤ N) (hx : IsConstraintMetric xm)
+theorem fitted_rule_attains_simple_any_grid (flip : Bool) (xm ym : Metric) (N : Nat) (groups : List (List Row)) (force : Option Nat)
+    (fit : Fit) (hx : IsConstraintMetric xm)
     (hfit : fitSimple flip xm ym N groups force = some fit) :
     (fit.rules.map ruleOps).length = groups.length ∧ fit.iBest ≤ N ∧
     (∀ j (hj : j < groups.length) (hj' : j < fit.rules.length),
       (ruleOps fit.rules[j]).Valid flip ∧
       xm.eval (expCM (ruleOps fit.rules[j]).prob groups[j]) = gridVal N fit.iBest) ∧
     opsObjective ym groups (fit.rules.map ruleOps) = fit.objective := by
-  obtain ⟨_, hiN, hrl, hpar⟩ := C04.parity_simple flip xm ym N groups force fit hN hx hfit
+  obtain ⟨_, hiN, hrl, hpar⟩ := C04.parity_simple_any_grid flip xm ym N groups force fit hx hfit
   obtain ⟨hulls, cs, best, hh, hc, hb, _, hrules, _, _⟩ := fitSimple_some hfit
   obtain ⟨hi, hbest⟩ := List.getElem?_eq_some_iff.mp hb
-  obtain ⟨hrow, hent⟩ := curves_entry hx hh hN hc fit.iBest hi
+  obtain ⟨hrow, hent⟩ := curves_entry_any hx hh hc fit.iBest hi
   have hlenh := (hullsOf_some hh).1
   rw [hbest] at hrow hent
   refine ⟨by simpa using hrl, hiN, fun j hj hj' => ?_, ?_⟩
@@ -538,29 +606,40 @@ theorem fitted_rule_attains_simple (flip : Bool) (xm ym : Metric) (N : Nat) (gro
     | false => rcases hwo with rfl | rfl
                · exact ⟨hs.p0_nonneg, Or.inl (hops hflip).1⟩
                · exact ⟨hs.p1_nonneg, Or.inl (hops hflip).2⟩
-  · rw [objective_attained_simple flip xm ym N groups force fit hN hx hfit]
+  · rw [objective_attained_simple_any_grid flip xm ym N groups force fit hx hfit]
     unfold opsObjective
     apply zipWith_sum_eq groups _ _ (fit.rules.map ruleOps) fit.rules (by simpa using hrl) hrl
     intro j hj hja hjb
     simp only [List.getElem_map, ruleOps_prob]
     rfl
 
+/-- `fitted_rule_attains_simple_any_grid` for `N ≥ 1` (the older statement; the hypothesis `1 ≤ N` is not used) -/
+theorem fitted_rule_attains_simple (flip : Bool) (xm ym : Metric) (N : Nat) (groups : List (List Row)) (force : Option Nat)
+    (fit : Fit) (hN : 1 ≤ N) (hx : IsConstraintMetric xm)
+    (hfit : fitSimple flip xm ym N groups force = some fit) :
+    (fit.rules.map ruleOps).length = groups.length ∧ fit.iBest ≤ N ∧
+    (∀ j (hj : j < groups.length) (hj' : j < fit.rules.length),
+      (ruleOps fit.rules[j]).Valid flip ∧
+      xm.eval (expCM (ruleOps fit.rules[j]).prob groups[j]) = gridVal N fit.iBest) ∧
+    opsObjective ym groups (fit.rules.map ruleOps) = fit.objective :=
+  fitted_rule_attains_simple_any_grid flip xm ym N groups force fit hx hfit
+
 /-- **attainment, equalized odds**: every fitted Bunch (interpolation + `p_ignore` towards the constant `x_best`) is a valid
     randomisation over thresholdings with expected FPR `x_best` and TPR `y_best` from the rows, and the overall objective of
     this family is `fit.objective` -/
-theorem fitted_rule_attains_EO (flip : Bool) (obj : Metric) (N : Nat) (groups : List (List Row)) (force : Option Nat)
-    (fit : Fit) (yBest : Rat) (hN : 1 ≤ N)
+theorem fitted_rule_attains_EO_any_grid (flip : Bool) (obj : Metric) (N : Nat) (groups : List (List Row)) (force : Option Nat)
+    (fit : Fit) (yBest : Rat)
     (hfit : fitEO flip obj N groups force = some (fit, yBest)) :
     (∀ j (hj : j < groups.length) (hj' : j < fit.rules.length),
       (ruleOps fit.rules[j]).Valid flip ∧
       eoXMetric.eval (expCM (ruleOps fit.rules[j]).prob groups[j]) = gridVal N fit.iBest ∧
       eoYMetric.eval (expCM (ruleOps fit.rules[j]).prob groups[j]) = yBest) ∧
     obj.eval (overallCMp groups ((fit.rules.map ruleOps).map OpMix.prob)) = fit.objective := by
-  obtain ⟨_, hiN, hrl, hpar⟩ := C04.parity_EO flip obj N groups force fit yBest hN hfit
+  obtain ⟨_, hiN, hrl, hpar⟩ := C04.parity_EO_any_grid flip obj N groups force fit yBest hfit
   obtain ⟨hulls, cs, ymins, best, hh, hc, _, hb, _, _, hrules, _, _⟩ := fitEO_some hfit
   have hx := C04.eo_metric_is_constraint
   obtain ⟨hi, hbest⟩ := List.getElem?_eq_some_iff.mp hb
-  obtain ⟨hrow, hent⟩ := curves_entry hx hh hN hc fit.iBest hi
+  obtain ⟨hrow, hent⟩ := curves_entry_any hx hh hc fit.iBest hi
   have hlenh := (hullsOf_some hh).1
   rw [hbest] at hrow hent
   refine ⟨fun j hj hj' => ?_, ?_⟩
@@ -570,7 +649,7 @@ theorem fitted_rule_attains_EO (flip : Bool) (obj : Metric) (N : Nat) (groups : 
     have hr : fit.rules[j] = eoRule (gridVal N fit.iBest) yBest best[j] := by simp [hrules]
     refine ⟨?_, by rw [ruleOps_prob]; exact ex, by rw [ruleOps_prob]; exact ey⟩
     have hc0 : 0 ≤ c := by rw [hcv]; exact gridVal_nonneg N fit.iBest
-    have hc1 : c ≤ 1 := by rw [hcv]; exact gridVal_le_one hN hiN
+    have hc1 : c ≤ 1 := by rw [hcv]; exact gridVal_le_one_any hiN
     have hops : flip = false → best[j].op0.gt = true ∧ best[j].op1.gt = true := by
       intro hf; subst hf; exact ThresholdPredict.interp_ops_gt gc hs
     have hro : fit.rules[j].op0 = best[j].op0 ∧ fit.rules[j].op1 = best[j].op1 ∧ fit.rules[j].p0 = best[j].p0 ∧
@@ -594,8 +673,19 @@ theorem fitted_rule_attains_EO (flip : Bool) (obj : Metric) (N : Nat) (groups : 
       have hsum : fit.rules[j].p0 + fit.rules[j].p1 = 1 := by rw [hro.2.2.1, hro.2.2.2]; exact hs.sum_one
       have : fit.rules[j].p1 = 1 - fit.rules[j].p0 := by linarith
       rw [this]; ring
-  · rw [objective_attained_EO flip obj N groups force fit yBest hN hfit, overallCM_eq_overallCMp]
+  · rw [objective_attained_EO_any_grid flip obj N groups force fit yBest hfit, overallCM_eq_overallCMp]
     simp only [List.map_map, Function.comp_def, ruleOps_prob]
+
+/-- `fitted_rule_attains_EO_any_grid` for `N ≥ 1` (the older statement; the hypothesis `1 ≤ N` is not used) -/
+theorem fitted_rule_attains_EO (flip : Bool) (obj : Metric) (N : Nat) (groups : List (List Row)) (force : Option Nat)
+    (fit : Fit) (yBest : Rat) (hN : 1 ≤ N)
+    (hfit : fitEO flip obj N groups force = some (fit, yBest)) :
+    (∀ j (hj : j < groups.length) (hj' : j < fit.rules.length),
+      (ruleOps fit.rules[j]).Valid flip ∧
+      eoXMetric.eval (expCM (ruleOps fit.rules[j]).prob groups[j]) = gridVal N fit.iBest ∧
+      eoYMetric.eval (expCM (ruleOps fit.rules[j]).prob groups[j]) = yBest) ∧
+    obj.eval (overallCMp groups ((fit.rules.map ruleOps).map OpMix.prob)) = fit.objective :=
+  fitted_rule_attains_EO_any_grid flip obj N groups force fit yBest hfit
 
 /-! ### Non-vacuity -/
 
@@ -656,5 +746,13 @@ example : (fitEO false .accuracy_score 4 ex none).map (fun f =>
       (f.1.rules.map (fun r => (ruleOps r).weight),
        Metric.eval .accuracy_score (overallCMp ex ((f.1.rules.map ruleOps).map OpMix.prob)))) =
     some ([1, 1, 1], 43/68) := by decide +kernel
+
+-- `*_any_grid` at N = 0 (the one-point grid `[0.]`): the fit succeeds, sits at index 0, and the hypotheses of
+-- `optimal_simple_ops_any_grid` are met by the all-negative rule (selection rate 0 = gridVal 0 0) in every group
+example : (fitSimple false .selection_rate .accuracy_score 0 ex none).map (fun f => (f.iBest, f.rules.length)) =
+    some (0, 3) := by decide +kernel
+example : (fitEO false .accuracy_score 0 ex none).map (fun f => (f.1.iBest, f.2)) = some (0, 0) := by decide +kernel
+example : ∀ g ∈ ex, Metric.eval .selection_rate (expCM (OpMix.prob [(1, ⟨true, .pinf⟩)]) g) = gridVal 0 0 := by
+  decide +kernel
 
 end C05
